@@ -66,7 +66,7 @@ func (s *LockSched) park(site string, blocked bool) {
 // Yield is a scheduling point of scenario code.
 func (s *LockSched) Yield(site string) { s.park(site, false) }
 
-func (s *LockSched) acquire(site string, try func() bool) {
+func (s *LockSched) acquire(site string, try func() bool, _ func()) {
 	s.park(site, false)
 	for !try() {
 		s.mu.Lock()
